@@ -128,18 +128,35 @@ def run(ctx):
         ctx.dist("binding-position-reads")
     singles = exe.accepted_singles(vh, [("binding", sgen.PROP[t], src) for p, t, src in progs])
     acc = []
+    static_ok = []
     for (p, t, src), r in zip(progs, singles):
         ok = isinstance(r, dict) and r.get("header") and not r["has_error"]
         dynamic = ok and re.search(r"\bevalTgt\w+\(\)", r["header"]) is not None
         ctx.count(src, bool(dynamic))
         if dynamic:
             acc.append((p, t, src))
+        elif ok:
+            static_ok.append((p, t, src, r))
         elif not ok and isinstance(r, dict) and r.get("diags"):
             ctx.coverage.setdefault("rejection_samples", [])
             if len(ctx.coverage["rejection_samples"]) < 5:
                 ctx.coverage["rejection_samples"].append({"qml": src[:200], "diag": r["diags"][0]["msg"]})
     ctx.coverage["programs_generated"] = n
     ctx.coverage["dynamic_bindings_accepted"] = len(acc)
+    # ---- a binding accepted WITHOUT an update function is a constant written into the .ui: the value of its source must then be the same in every state
+    static_ok = static_ok[:200 if ctx.tier == "thorough" else 60]
+    if static_ok and ctx.model_ok:
+        ws = [exe.world(rng) for _ in range(6)]
+        sterms = ["bind_all \"%s\" %s %s" % (sgen.PROP[t], prog.coq_program(p), C.coq_list([exe.coq_world(w) for w in ws])) for p, t, src, r in static_ok]
+        souts = C.coq_eval_terms("c02_static", HDR, sterms, scope="Z_scope", timeout=900)
+        for (p, t, src, r), o in zip(static_ok, souts):
+            vals = [exe.canon_doubles(x) for x in re.findall(r'"([^"]*)"', o)]
+            defined = sorted({v for v in vals if v and not v.startswith("UNDEF") and not v.startswith("STUCK")})
+            ctx.dist("binding-accepted-as-constant")
+            if len(defined) > 1:
+                ctx.violation("the binding %s is accepted with NO update function (its value is written into the .ui once) although the value of its source differs between states: %s"
+                              % (src, defined[:3]), {"qml": cxx.document([("tgt", sgen.PROP[t], src)]), "worlds": [exe.world_line(w) for w in ws], "oracle_output": vals,
+                                                     "impl_output": r.get("header"), "theorem_or_correspondence": "C02_stays_current / S (constant classification)"})
     # ---- unobservable reads are rejected
     unobs = [("i", "a.quiet", True), ("i", "a.next != null ? a.next.quiet : 0", True), ("i", "{ let p = a.next; if (p != null) { return p.quiet } return 0 }", True),
              ("i", "a.quietNext != null ? a.quietNext.i : 0", True), ("b", "a.quietNext == b", True), ("i", "{ let p = a.quietNext; return p != null ? p.i : 1 }", True),
